@@ -31,6 +31,10 @@ func djump(pc ProgramCounter, a uint32, jumpTable JumpTable, bitmask Bitmask) (E
 		return ExitPanic, pc
 	}
 
+	if dest > uint64(^ProgramCounter(0)) {
+		// an entry that does not fit a program counter cannot be the start of a basic block
+		return ExitPanic, pc
+	}
 	newPC := ProgramCounter(dest)
 
 	if !bitmask.IsStartOfBasicBlock(newPC) {
